@@ -117,6 +117,10 @@ func c08Variant(p *c08Packet, kind string) []byte {
 		switch kind {
 		case "bit255":
 			v[randomOff+31] ^= 0x80
+		case "garble":
+			// same random, sealed part damaged (a bit of the session id): it cannot authenticate, and presenting it
+			// must not make the server forget that it has seen the genuine packet
+			v[randomOff+32+1+7] ^= 0x10
 		case "ciphersuite":
 			off := randomOff + 32 + 1 + 32 + 2
 			v[off+3] ^= 0x01
@@ -141,6 +145,13 @@ func c08Variant(p *c08Packet, kind string) []byte {
 			return v
 		}
 		raw[31] ^= 0x80
+		return []byte(s[:i+8] + base64.StdEncoding.EncodeToString(raw) + s[j:])
+	case "garble":
+		raw, err := base64.StdEncoding.DecodeString(val)
+		if err != nil || len(raw) < 96 {
+			return v
+		}
+		raw[32+7] ^= 0x10
 		return []byte(s[:i+8] + base64.StdEncoding.EncodeToString(raw) + s[j:])
 	case "ciphersuite":
 		return []byte(strings.Replace(s, "\r\n\r\n", "\r\nX-Extra: 1\r\n\r\n", 1))
@@ -481,7 +492,7 @@ func c08Gen(rt *rapid.T) c08Scenario {
 		case k < 40:
 			sc.Ops = append(sc.Ops, c08Op{K: "again", I: rapid.IntRange(0, 20).Draw(rt, "i")})
 		case k < 60:
-			sc.Ops = append(sc.Ops, c08Op{K: "variant", I: rapid.IntRange(0, 20).Draw(rt, "i"), Kind: rapid.SampledFrom([]string{"bit255", "bit255", "ciphersuite", "sni", "rewrap", "rewrap"}).Draw(rt, "vk")})
+			sc.Ops = append(sc.Ops, c08Op{K: "variant", I: rapid.IntRange(0, 20).Draw(rt, "i"), Kind: rapid.SampledFrom([]string{"bit255", "bit255", "ciphersuite", "sni", "rewrap", "rewrap", "garble", "garble"}).Draw(rt, "vk")})
 		case k == 68:
 			sc.Ops = append(sc.Ops, c08Op{K: "flood", N: rapid.SampledFrom([]int{50, 3000, 40000, 70000, 140000, 300000}).Draw(rt, "flood")})
 		case k < 68:
